@@ -552,6 +552,9 @@ fn runtime_cases() -> Vec<Case> {
         "{{ 1|nofilter }}", "{{ 1 is notest }}", "{{ nofunc() }}", "{{ 1 // 0 }}", "{{ xs|join(1, 2, 3, 4) }}", "{% for a, b in [1] %}{% endfor %}", "{% include 'missing' %}",
         "{{ 'é☃' + 1 }}", "{{ undefined_var }}", "{{ xs.nope.deeper }}", "{{ range(10, 0, 0) }}", "{{ xs[1:2:0] }}", "{% set a, b = 1 %}", "{{ x() }}", "{{ 'é' ~ (1 // 0) ~ 'é' }}",
         "{% if undefined_var %}{% endif %}", "{{ xs|map('nofilter')|list }}", "{{ dict(1) }}", "{% do nofunc() %}", "{% import 'missing' as m %}", "{{ 1 is divisibleby }}",
+        // calls that are instructions of their own (block calls through self, super, caller) failing as
+        // such: unknown block, no parent block, no caller - as the whole expression and inside one
+        "{{ self.missing() }}", "{{ self.missing()|upper }}", "{% set q = self.missing() %}", "{{ super() }}", "{{ super()|upper }}", "{{ caller() }}", "{% if self.missing() %}{% endif %}",
         // faults raised by instructions that carry no span of their own
         "{% autoescape 'bogus' %}x{% endautoescape %}", "{% set q = not undefined_var %}", "{% set q = 1 if undefined_var %}", "{% for i in undefined_var %}{% endfor %}",
         "{% with a = undefined_var.x %}{% endwith %}", "{% set q = xs|sort(attribute=undefined_var.y) %}",
